@@ -215,7 +215,7 @@ class Mon:
             self.v("C08", "reports_more_free_than_true", (where, reported, fm, dict(self.resident)))
         elif reported < fm and self.jobs_alive == 0:
             self.v("C08", "reports_less_free_at_rest", (where, reported, fm, dict(self.resident)),
-                   failed_pagein_without_segment=self.K.probes.get("pagein_left_no_segment", 0) > 0)
+                   failed_pagein_without_segment=self.K.probes.get("pagein_left_no_segment", 0) > 0, enomem=self.K.fired.get("shm_enomem", 0) > 0)
 
     # --- disk pool
     def on_job_start(self, pool, fn, args):
@@ -452,7 +452,7 @@ def run(plan, ch, want_log=False):
         if mgr is not None:
             # datasets an injected fault (or a dead page-in) made unevictable are excluded from the demand, narrowly
             for key, ds in mgr.datasets.items():
-                if ds.status in (dataset.DatasetStatus.paged_in, dataset.DatasetStatus.paging_out) and mon.jobs_alive == 0:
+                if ds.status == dataset.DatasetStatus.paging_out and mon.jobs_alive == 0 and ds.ongoing_reads:
                     stuck += ds.size
         want = cap - stuck
         if want > 0:
@@ -469,7 +469,8 @@ def run(plan, ch, want_log=False):
                       dict(cap=cap, want=want, stuck=stuck, resident={mon.shmid2key.get(s): z for s, z in mon.resident.items()},
                            statuses={k: d.status.name for k, d in (mgr.datasets.items() if mgr else [])},
                            lock=getattr(getattr(mgr, "pageout_all", None), "held", None)),
-                      faulted=bool(K.fired), lock_held=bool(getattr(getattr(mgr, "pageout_all", None), "held", False)), stuck=stuck)
+                      faulted=bool(K.fired), lock_held=bool(getattr(getattr(mgr, "pageout_all", None), "held", False)), stuck=stuck,
+                      failed_pagein_without_segment=K.probes.get("pagein_left_no_segment", 0) > 0, enomem=K.fired.get("shm_enomem", 0) > 0)
             else:
                 results["probe_err"] += 1
         if stuck:
